@@ -5,6 +5,7 @@ import Driver.Apache
 import Driver.Digest
 import Driver.Disabled
 import Driver.Rounds
+import Driver.Des
 /-
 Line protocol driver: `<suite> <op> <args…>` per input line, one result line out.
 Compiled (`lean_exe modeldrv`); nothing imported here touches Mathlib.
@@ -18,6 +19,7 @@ def dispatch (line : String) : String :=
   | "digest" :: rest => Driver.Digest.handle rest
   | "dis" :: rest => Driver.Disabled.handle rest
   | "rounds" :: rest => Driver.Rounds.handle rest
+  | "des" :: rest => Driver.Des.handle rest
   | _ => Driver.bad
 
 partial def loop (h : IO.FS.Stream) (out : IO.FS.Stream) : IO Unit := do
